@@ -15,6 +15,7 @@
 import AgpTpf.Properties.C06
 import AgpTpf.Proofs.AsmFormatValid
 import AgpTpf.Proofs.AsmFormatCli
+import AgpTpf.Proofs.AsmFormatNames
 namespace AgpTpf.C06
 open AgpTpf AgpTpf.C05 AgpTpf.AsmFormat
 
@@ -26,14 +27,20 @@ theorem asm_format_never_fails_after_parse (inFmt : Fmt) (asmName : Str) (lines 
   obtain ⟨text, hw⟩ := writeFh_parsed_ok hp outFmt
   exact ⟨text, (processFh_ok_iff _ _ _ _ _ _ _).2 ⟨asm, hp, rfl, hw⟩⟩
 
+/-- the object names of the written AGP are the scaffold names, in order -/
+theorem agpObjects_names (a : Assembly) : (agpObjects a).map (·.1) = scNames a.scaffolds := by
+  simp [agpObjects, scNames, List.map_map, Function.comp_def]
+
 /-- ONE `process_fh` with output format AGP that does not raise (input AGP or TPF, ANY input text): the text written
     is a valid AGP file whose objects are the scaffolds of the parsed assembly with their lengths; strictly valid as
-    soon as every gap of the parsed assembly has a positive length and a type. -/
+    soon as every gap of the parsed assembly has a positive length and a type; and two objects that follow each other
+    are differently named (`AdjDiff`; a name may still come back later, see the findings). -/
 theorem asm_format_writes_valid_agp (inFmt : Fmt) (asmName : Str) (lines : List Str) (qc : Bool)
     (text : Str) (pairs : List OvPair) (h : processFh inFmt asmName lines (some .AGP) qc = .ok (text, pairs)) :
     ∃ asm, parseFh inFmt asmName lines = .ok asm ∧
       ValidAgp false text (agpObjects asm) ∧
-      (GapsStrict asm → ValidAgp true text (agpObjects asm)) := by
+      (GapsStrict asm → ValidAgp true text (agpObjects asm)) ∧
+      AdjDiff ((agpObjects asm).map (·.1)) := by
   obtain ⟨asm, hp, _, hw⟩ := (processFh_ok_iff _ _ _ _ _ _ _).1 h
   have hrows := parseFh_rowsParsed hp
   have hhdr : ∀ x ∈ asm.header, '\n' ∉ x := fun x hx => C06.HeaderOk.no_nl (parseFh_headerOk hp x hx)
@@ -42,13 +49,14 @@ theorem asm_format_writes_valid_agp (inFmt : Fmt) (asmName : Str) (lines : List 
     intro ls hls
     simp only [writeFh, hls, bind, Except.bind, pure, Except.pure, Except.ok.injEq] at hw
     exact hw.symm
-  refine ⟨asm, hp, ?_, ?_⟩
+  refine ⟨asm, hp, ?_, ?_, ?_⟩
   · obtain ⟨ls, hls, hv⟩ := formatAgp_validAgp false asm hs (fun hf => Bool.noConfusion hf) hhdr
     rw [htext ls hls]; exact hv
   · intro hg
     obtain ⟨ls, hls, hv⟩ := formatAgp_validAgp true asm hs
       (fun _ s hs r hr => rowStrict_of_parsed (hrows s hs r hr) (hg s hs r hr)) hhdr
     rw [htext ls hls]; exact hv
+  · rw [agpObjects_names]; exact parseFh_adjDiff hp
 
 /-- The whole run with output format AGP, any number of input files, failing or not: what is on the output handle at
     the end is the concatenation of one valid AGP text per input file processed before the first failure (all of
@@ -61,7 +69,8 @@ theorem asm_format_files_write_valid_agp (o : AsmFormatOpts) (f : Str × List St
       (asmFormat o (f :: rest) stdin).written = texts.flatten ∧
       Forall2 (fun (file : Str × List Str) (text : Str) =>
         ∃ asm, parseFh (fileInFmt o file) (fileAsmName o file) (fileLinesRead o file) = .ok asm ∧
-          ValidAgp false text (agpObjects asm) ∧ (GapsStrict asm → ValidAgp true text (agpObjects asm)))
+          ValidAgp false text (agpObjects asm) ∧ (GapsStrict asm → ValidAgp true text (agpObjects asm)) ∧
+          AdjDiff ((agpObjects asm).map (·.1)))
         ((f :: rest).take k) texts ∧
       ((asmFormat o (f :: rest) stdin).error = none → k = (f :: rest).length) := by
   rw [asmFormat_files]
@@ -88,7 +97,8 @@ theorem asm_format_stdin_writes_valid_agp (o : AsmFormatOpts) (stdin : List Str)
     (hout : outFmtOf o.format o.outputFile = .ok .AGP) (h : (asmFormat o [] stdin).error = none) :
     ∃ asm, parseFh (stdinInFmt o) (stdinAsmName o) stdin = .ok asm ∧
       ValidAgp false (asmFormat o [] stdin).written (agpObjects asm) ∧
-      (GapsStrict asm → ValidAgp true (asmFormat o [] stdin).written (agpObjects asm)) := by
+      (GapsStrict asm → ValidAgp true (asmFormat o [] stdin).written (agpObjects asm)) ∧
+      AdjDiff ((agpObjects asm).map (·.1)) := by
   cases hp : processFh (stdinInFmt o) (stdinAsmName o) stdin (outFmtSel o.format o.outputFile) o.qcOverlaps with
   | error e => rw [(asmFormat_stdin_error o stdin e hp).2] at h; cases h
   | ok r =>
